@@ -83,6 +83,12 @@ def enumerate_cases(tier):
             continue
         for step in STEPS:
             yield "1d-nonmonotonic", {"mode": "1d", "labels": list(perm), "kind": "f", "step": step, "bounds": [None, 0.0, -0.5, 1.0, 0.25]}
+    for perm in itertools.permutations([2000.0, 2000.01, 2000.02]):       # large magnitude, small spacing: neighbours are 5e-6 apart relatively
+        inc, dec = im.monotonic(list(perm))
+        if inc or dec:
+            continue
+        for step in STEPS:
+            yield "1d-nonmonotonic", {"mode": "1d", "labels": list(perm), "kind": "f", "step": step, "bounds": [None, 2000.0, 2000.01, 2000.02, 2000.005]}
     for perm in itertools.permutations([1.5, 0.5, 2.5]):
         inc, dec = im.monotonic(list(perm))
         if inc or dec:
